@@ -55,6 +55,22 @@ def f42_region(script):
     return None
 
 
+def builtin_suboptimal_is_stable(script, cfg, summary, label, n=6):
+    """z3.Optimize of the z3 4.12.6 binding now and then returns a non-optimal model for a problem it optimises correctly
+    on the next call (recorded findings F44, F46: z3's answer varies from call to call within one process, with the
+    library handing it the same, right problem).  A defect of the *library* — an objective not handed over, handed over
+    after another one, a wrong target — is the same on every call: the built-in optimiser is reported as non-optimal
+    only when `n` further calls all return a schedule that a valid one strictly improves."""
+    for _ in range(n):
+        with smrun.silent(), no_stderr():
+            r = smrun.run_real_solve(script, dict(cfg))
+        z3.set_option("parallel.enable", False)
+        if not (r.get("result") and r.get("better_status") == "sat"):
+            count(summary, f"{label}_builtin_nonoptimal_once_optimal_on_a_later_call_z3_unstable")
+            return False
+    return True
+
+
 def run_c07(script, rng, summary, driver=None):
     real = pslib.Real()
     res = real.run(script)
@@ -84,7 +100,8 @@ def run_c07(script, rng, summary, driver=None):
                         f"{a.get('better_value')} exists", "runs": [a, b]}
     if f42_region(script):
         count(summary, f"run_c07_builtin_not_compared_known_{f42_region(script)}_region")
-    if b.get("result") and b.get("better_status") == "sat" and not f42_region(script):
+    if b.get("result") and b.get("better_status") == "sat" and not f42_region(script) and \
+            builtin_suboptimal_is_stable(script, cfg_opt, summary, "run_c07"):
         return {"what": f"builtin optimiser returned value {b.get('value')} but a valid schedule with value "
                         f"{b.get('better_value')} exists", "runs": [a, b]}
     if a.get("result") and b.get("result") and dt < 3 and not f42_region(script) and a.get("value") is not None and b.get("value") is not None \
@@ -283,7 +300,8 @@ def weighted_probe(script, real, rng, summary):
     if a.get("result") and dt < 3 and a.get("better_status") == "sat":
         return {"what": f"weighted sum {ws}: incremental optimiser returned value {a.get('value')} but a valid schedule "
                         f"with value {a.get('better_value')} exists", "script": scr, "runs": [a, b]}
-    if b.get("result") and b.get("better_status") == "sat" and not f42_region(scr):
+    if b.get("result") and b.get("better_status") == "sat" and not f42_region(scr) and \
+            builtin_suboptimal_is_stable(scr, {"optimizer": "optimize", "optimize_priority": "weight"}, summary, "run_c07_weighted"):
         return {"what": f"weighted sum {ws}: builtin optimiser returned value {b.get('value')} but a valid schedule with "
                         f"value {b.get('better_value')} exists", "script": scr, "runs": [a, b]}
     # z3 is free to answer with any admissible model: the same problem against the worst-first consistent oracle, which
@@ -674,7 +692,9 @@ def run_c15(script, rng, summary):
             and a.get("better_status") == "unsat" == b.get("better_status") and a["value"] != b["value"]:
         return {"what": f"configurations {c1} and {c2} disagree on the optimum: {a['value']} vs {b['value']}", "runs": outs}
     for r, cfg in ((a, c1), (b, c2)):
-        if r.get("result") and r.get("better_status") == "sat" and "max_iter" not in cfg:
+        if r.get("result") and r.get("better_status") == "sat" and "max_iter" not in cfg and \
+                (cfg.get("optimizer", "incremental") == "incremental" or
+                 builtin_suboptimal_is_stable(script, cfg, summary, "run_c15")):
             return {"what": f"configuration {cfg} returned value {r.get('value')} but {r.get('better_value')} is achievable",
                     "runs": outs}
     v = toggle_sequence(script, real0, rng, summary)
@@ -686,6 +706,20 @@ def run_c15(script, rng, summary):
 
 
 def toggle_sequence(script, real0, rng, summary):
+    """see `toggle_sequence_once`; a difference in the optimum under the built-in optimiser is reported only when it
+    shows again on each of four further runs of the same pair of configurations (z3.Optimize's answers vary from call to
+    call: findings F44, F46)"""
+    v = toggle_sequence_once(script, real0, rng, summary)
+    if v and v.get("unstable_candidate"):
+        for _ in range(4):
+            again = toggle_sequence_once(script, real0, rng, summary, fixed=v["pair"])
+            if not again:
+                count(summary, "run_c15_toggle_sequence_builtin_optimum_differed_once_z3_unstable")
+                return None
+    return v
+
+
+def toggle_sequence_once(script, real0, rng, summary, fixed=None):
     """an option that only changes how z3 searches (parallel, random_values, verbosity) must not change what a short
     sequence of public calls answers: solve() then find_another_solution() on the same solver object, with and
     without the option — same verdicts, valid schedules, same optimum of the first call"""
@@ -698,6 +732,8 @@ def toggle_sequence(script, real0, rng, summary):
     if in_lia_fragment(script):
         toggles += [{"logics": "QF_LIA"}, {"logics": "QF_UFLIA"}, {"logics": "QF_LIA"}]
     toggle = rng.choice(toggles)
+    if fixed is not None:
+        base_cfg, toggle = fixed
     outs = []
     for cfg in (dict(base_cfg), dict(base_cfg, **toggle)):
         real = pslib.Real()
@@ -747,7 +783,11 @@ def toggle_sequence(script, real0, rng, summary):
     for k, what in (("first", "the verdict of solve()"), ("second", "whether find_another_solution() finds a schedule"),
                     ("value", "the optimum of solve()")):
         if k in a and k in b and a[k] != b[k]:
-            return {"what": f"{what} depends on the option {toggle}: {a[k]} without, {b[k]} with", "runs": outs}
+            v = {"what": f"{what} depends on the option {toggle}: {a[k]} without, {b[k]} with", "runs": outs}
+            if k == "value" and base_cfg.get("optimizer") == "optimize":
+                v["unstable_candidate"] = True
+                v["pair"] = (dict(base_cfg), dict(toggle))
+            return v
     return None
 
 
